@@ -259,6 +259,9 @@ func globalMemName(g *ssa.Global, leaf Leaf) string {
 
 var byteMemName = "elem:uint8/"
 
+// fieldLens: length of the array behind each embedded-array region class.
+var fieldLens = map[uint64]int64{}
+
 func (e *Engine) mem(st *State, name string, ksort []Sort, sort Sort) *Mem {
 	if m, ok := st.mems[name]; ok {
 		return m
@@ -334,13 +337,14 @@ func (e *Engine) freshRef() *Term {
 	return BVConstU(0x80000000+e.allocSeq, RefSort)
 }
 
-func (e *Engine) fieldRegion(root types.Type, path string, ref *Term) *Term {
+func (e *Engine) fieldRegion(root types.Type, path string, ref *Term, n int64) *Term {
 	k := typeKey(root) + "/" + path
 	id, ok := e.fieldIDs[k]
 	if !ok {
 		id = uint64(len(e.fieldIDs) + 1)
 		e.fieldIDs[k] = id
 	}
+	fieldLens[id] = n
 	hi := BVConstU(0xE0000000+id, 32)
 	return Concat(hi, ref)
 }
@@ -359,7 +363,14 @@ func (e *Engine) typeTag(t types.Type) *Term {
 
 func (e *Engine) oblige(fr *Frame, st *State, kind string, instr ssa.Instruction, goal *Term, desc string) {
 	// after the check the execution continues only where the goal held
-	defer func() { st.assume(goal) }()
+	// (proved quantified facts are not carried along: they would have to be
+	// instantiated in every later query)
+	defer func() {
+		if len(e.quantVars) > 0 && e.mentionsQuant(goal) {
+			return
+		}
+		st.assume(goal)
+	}()
 	if fr.quiet {
 		return
 	}
@@ -399,6 +410,18 @@ func (e *Engine) oblige(fr *Frame, st *State, kind string, instr ssa.Instruction
 		}
 	}
 	e.obls = append(e.obls, &Obligation{Name: name, Kind: k, Fn: fnName(fr.fn), Pos: pos, hyp: st.pc.term(), goal: goal, Desc: desc, Props: e.props})
+}
+
+func (e *Engine) mentionsQuant(t *Term) bool {
+	found := false
+	Walk(t, map[int]bool{}, func(x *Term) {
+		if x.op == "var" {
+			if _, ok := e.quantVars[x.name]; ok {
+				found = true
+			}
+		}
+	})
+	return found
 }
 
 func fnName(fn *ssa.Function) string {
@@ -1694,7 +1717,7 @@ func (e *Engine) execInstr1(fr *Frame, st *State, in ssa.Instruction) {
 				}
 				if arr.Len() > maxValueArray || true {
 					path = fmt.Sprintf("%s@%d", st0.Underlying().(*types.Struct).Field(x.Field).Name(), a.off+lo)
-					na = Addr{kind: AArr, typ: ft, elem: arr.Elem(), region: e.fieldRegion(a.root, path, a.ref), idx: BVConst(0, IntSort), n: arr.Len()}
+					na = Addr{kind: AArr, typ: ft, elem: arr.Elem(), region: e.fieldRegion(a.root, path, a.ref, arr.Len()), idx: BVConst(0, IntSort), n: arr.Len()}
 				}
 			}
 		case ALocal, AGlobal:
@@ -1709,6 +1732,13 @@ func (e *Engine) execInstr1(fr *Frame, st *State, in ssa.Instruction) {
 		e.indexAddr(fr, st, x)
 	case *ssa.Index:
 		v := e.val(fr, x.X)
+		if isStringType(x.X.Type()) {
+			idx := e.intVal(fr, x.Index)
+			e.oblige(fr, st, "index", x, And(BVSle(BVConst(0, IntSort), idx), BVSlt(idx, v.T[2])), "string index out of range")
+			l := leavesOf(types.Typ[types.Uint8])[0]
+			fr.regs[x] = scalar(e.memRead(st, byteMemName, elemKS, l, []*Term{v.T[0], BVAdd(v.T[1], idx)}))
+			return
+		}
 		arr := x.X.Type().Underlying().(*types.Array)
 		idx := e.intVal(fr, x.Index)
 		e.oblige(fr, st, "index", x, And(BVSle(BVConst(0, IntSort), idx), BVSlt(idx, BVConst(arr.Len(), IntSort))), "array index out of range")
